@@ -65,9 +65,12 @@ def _run(sim, case, r):
     rt_arg = case['retry']
     rt = max(1, rt_arg)                  # retry_times=0: 'no retry' - every Interest is still sent once (see ASSUMPTIONS)
     version = [T.enc_tlv(54, T.enc_nni(case['version']))] if case['version'] is not None else []
-    base = PREFIX + version
+    # the object's own name may end with a generic component whose OCTETS look like something else (0x00 + a number - the
+    # marker-based segment convention of old; a TLV header): only a component of the segment TYPE is a segment number
+    tail = [T.enc_tlv(8, bytes.fromhex(case['tail']))] if case.get('tail') else []
+    base = PREFIX + version + tail
     last = N - 1
-    ask = list(PREFIX)
+    ask = list(base) if (tail and case.get('ask_tail')) else list(PREFIX)
     if case.get('ask_segment') is not None and N > 0:
         # the application passes the full name of one segment (e.g. from a link it was given): discovery is answered by it
         ask = base + [seg(case['ask_segment'] % N)]
@@ -317,6 +320,8 @@ def _case(draw):
             'other_final': draw(st.sampled_from([None, None, None, 'seq', 'off', 'ver', 'gen'])),
             'ask_segment': draw(st.one_of(st.none(), st.none(), st.none(), st.integers(0, 7))),
             'version': draw(st.one_of(st.none(), st.sampled_from([0, 1, 255, 256, 2 ** 32]))), 'loss': loss, 'fault': fault,
+            'tail': draw(st.sampled_from([None, None, None, '0007', '0000', '0000000007', '000000000000000001', '00', 'fd0100', '3201'])),
+            'ask_tail': draw(st.booleans()),
             'twin': draw(st.sampled_from([None, None, 0, 1, 40, 60])),
             'empty_seg': draw(st.sampled_from([None, None, None, 0, 1, 2, 6])),
             'validator_ms': draw(st.sampled_from([0, 0, 0, 30, 150, 600])), 'falsy_validator': draw(st.sampled_from([False, False, True])),
@@ -344,5 +349,5 @@ SUBCHECKS = {
     'matrices': SubCheck(run_case, enumerate=_enum, exhaustive={'quick': False, 'thorough': True},
                          note='thorough: N<=4, r<=3, every discovery answer k and every per-row count of leading losses 0..r (complete); '
                               'quick: N<=3, r<=2, at most two lossy rows'),
-    'objects': SubCheck(run_case, strategy=lambda tier: _case(), examples={'quick': 1500, 'thorough': 60000}),
+    'objects': SubCheck(run_case, strategy=lambda tier: _case(), examples={'quick': 4000, 'thorough': 60000}),
 }
